@@ -379,6 +379,36 @@ class Explorer:
         return out
 
 
+def _generic_model(ex):
+    """a model of the current path in which as many real symbols as possible take fixed pseudo-random dyadic values inside
+    their declared boxes (all of them, else the first half, else none -> None)"""
+    import random
+    names = [n for n, (sort, sv) in ex.declared.items() if sort == 'R' and not (isinstance(sv, SR) and sv.is_const())]
+    if not names:
+        return None
+    rng = random.Random(len(names) * 7919 + len(ex.cons))
+    eqs = []
+    for n in names:
+        vid = REG.byname[n]
+        lo, hi = ex.bounds.get(vid, (Fraction(-3), Fraction(3)))
+        lo, hi = max(lo, Fraction(-64)), min(hi, Fraction(64))
+        if hi <= lo:
+            continue
+        k = rng.randint(1, 63)
+        val = lo + (hi - lo) * Fraction(k, 64)
+        eqs.append(REG.z3c[vid] == z3.RealVal(f'{val.numerator}/{val.denominator}'))
+    for sub in (eqs, eqs[:len(eqs) // 2]):
+        if not sub:
+            continue
+        try:
+            r, m = ex._check(sub)
+        except Exception:
+            return None
+        if r == 'sat':
+            return m
+    return None
+
+
 def _num(v):
     if z3.is_rational_value(v):
         return f'{v.numerator_as_long()}/{v.denominator_as_long()}'
@@ -510,7 +540,10 @@ def explore(fn, rlimit=RLIMIT, max_paths=20000, wall_s=None, on_path=None):
                     stats['undecided'] += 1
                     undecided.append(dict(kind='obligation', name=name, goal=str(t)[:300]))
             if obs and ex.model is not None and len(witnesses) < 3:
-                witnesses.append(dict(inputs=ex.inputs_from_model(ex.model), observed=_eval_obs(obs, ex.model)))
+                # the solver's own model sets every unconstrained symbol to 0, which hides most float64-only differences
+                # (0 converted to another unit is 0): prefer a model of the same path with pseudo-random dyadic values
+                wm = _generic_model(ex) or ex.model
+                witnesses.append(dict(inputs=ex.inputs_from_model(wm), observed=_eval_obs(obs, wm)))
             if on_path:
                 on_path(ex, stats)
     finally:
